@@ -1128,8 +1128,144 @@ fn space_tight(cs: &mut Vec<Case>, class: &'static str) {
     }
 }
 
+// ---------------------------------------------------------------------------------------------
+// K. the receive stream across several waits: spurious polls, waker changes, a waker change while the
+// sender is in the middle of completing the wait, close / disconnect, polls after the end
+fn fam_stream<T: Payload>(c: &Case, cx: &mut Ctx) -> Outcome {
+    let variant = c.a % 4;
+    let mut sc = Scn::<T>::new(c.cap, c.d & 4 == 4, c.seed);
+    sc.mexec(Op::CloneR(true));
+    let mut expect_pending = |sc: &mut Scn<T>, w: usize, why: &str| {
+        let r = sc.main.sstream_poll(w);
+        let why = why.to_string();
+        sc.expect(r.is_pending(), "C16", || format!("stream poll ({}) must stay Pending: nothing was sent, got {:?}", why, r));
+    };
+    let nwaits = 2 + (c.b % 3) as usize;
+    match variant {
+        0 => {
+            // waits with spurious polls / waker changes; items sent by main itself
+            for i in 0..nwaits {
+                expect_pending(&mut sc, i % 2, "first poll of a wait on an empty channel");
+                sc.pin_main_reg();
+                for k in 0..(c.c % 3) as usize {
+                    expect_pending(&mut sc, (i + k + 1) % 3, "spurious poll / new waker");
+                }
+                let last = sc.main.last_waker_stream;
+                let before = sc.main.wakers[last].fired();
+                sc.mexec(Op::TrySend);
+                let tag = sc.main.log.last().unwrap().tag.unwrap();
+                sc.expect(sc.main_result() == Res::True, "C08", || "try_send with the stream waiting must succeed".into());
+                let fired = sc.main.wakers[last].fired();
+                sc.expect(fired > before, "C16", || format!("the stream's wait was completed but the most recently supplied waker #{} did not fire", last));
+                let r = sc.main.sstream_poll(last);
+                sc.expect(matches!(r, Poll::Ready(Some(t)) if t == tag || !T::UNIQUE), "C16", || format!("stream must yield the value {} that completed its wait, got {:?}", tag, r));
+            }
+        }
+        1 => {
+            // a waker change lands while the sender is in the middle of completing the wait
+            expect_pending(&mut sc, 0, "first poll");
+            sc.pin_main_reg();
+            let pt = [WAKE_ASYNC_CLONED, SEND_ENTER, SEND_WRITTEN, WAKE_ASYNC_BEFORE_WAKE][c.b as usize % 4];
+            fp::arm(1, pt);
+            let p = sc.spawn(Side::S, c.d & 1 == 1, vec![Op::TrySend]);
+            if !sc.wait_arrived(p, pt) {
+                return sc.finish(cx.lin_budget, &mut cx.obs, &mut cx.samples, &mut cx.lin_states);
+            }
+            sc.pin_reg(p, 0);
+            // the poll with a new waker finds its signal claimed: it has to wait for the sender (or, if the
+            // state is already published, just take the value)
+            let polled = Arc::new(AtomicBool::new(false));
+            let p2 = polled.clone();
+            let h0 = sc.hits0;
+            let abw0 = sc.hits()[ABW_ENTER as usize];
+            let rel = release_when(1, pt, Duration::from_secs(100_000_000), move || fp::hits_delta(&h0)[ABW_ENTER as usize] > abw0 || p2.load(Ordering::Acquire));
+            let r = sc.main.sstream_poll(1);
+            polled.store(true, Ordering::Release);
+            rel.join().unwrap();
+            sc.join(p);
+            let r = if r.is_pending() { sc.main.sstream_poll(1) } else { r };
+            sc.expect(matches!(r, Poll::Ready(Some(_))), "C16", || format!("the stream must yield the value its claimed wait received, got {:?}", r));
+            // the following waits must behave like fresh ones
+            for i in 0..nwaits {
+                expect_pending(&mut sc, (i + 1) % 2, "first poll of the next wait");
+                sc.pin_main_reg();
+                expect_pending(&mut sc, i % 2, "spurious poll with another waker");
+                expect_pending(&mut sc, i % 2, "spurious poll with the same waker");
+                sc.mexec(Op::TrySend);
+                let tag = sc.main.log.last().unwrap().tag.unwrap();
+                let r = sc.main.sstream_poll(i % 2);
+                sc.expect(matches!(r, Poll::Ready(Some(t)) if t == tag || !T::UNIQUE), "C16", || format!("stream must yield the next value {}, got {:?}", tag, r));
+            }
+        }
+        2 => {
+            // wait -> item -> wait -> close -> end, and the end is reported again and again
+            expect_pending(&mut sc, 0, "first poll");
+            sc.pin_main_reg();
+            sc.mexec(Op::TrySend);
+            let r = sc.main.sstream_poll(0);
+            sc.expect(matches!(r, Poll::Ready(Some(_))), "C16", || format!("stream must yield the sent value, got {:?}", r));
+            expect_pending(&mut sc, 1, "second wait");
+            sc.pin_main_reg();
+            let before = sc.main.wakers[1].fired();
+            sc.mexec(if c.b % 2 == 0 { Op::CloseS } else { Op::CloseR });
+            sc.expect(sc.main.wakers[1].fired() > before, "C06", || "close() did not wake the pending stream".into());
+            for _ in 0..3 {
+                let r = sc.main.sstream_poll(c.c as usize % 3);
+                sc.expect(matches!(r, Poll::Ready(None)), "C16", || format!("a stream on a closed channel must end and keep reporting the end, got {:?}", r));
+            }
+        }
+        _ => {
+            // buffered values, then the last sender goes away: everything is yielded in order, then the end
+            let k = match sc.cap {
+                Some(n) => n.min(3),
+                None => 3,
+            };
+            let mut tags = vec![];
+            for _ in 0..k {
+                sc.mexec(Op::TrySend);
+                tags.push(sc.main.log.last().unwrap().tag.unwrap());
+            }
+            if c.b % 2 == 0 {
+                // a wait in between
+                for t in tags.drain(..) {
+                    let r = sc.main.sstream_poll(0);
+                    sc.expect(matches!(r, Poll::Ready(Some(x)) if x == t || !T::UNIQUE), "C02", || format!("stream must yield buffered value {}, got {:?}", t, r));
+                }
+                expect_pending(&mut sc, 1, "buffer exhausted, sender alive");
+                sc.pin_main_reg();
+            }
+            sc.mexec(Op::DropS);
+            for t in tags {
+                let r = sc.main.sstream_poll(1);
+                sc.expect(matches!(r, Poll::Ready(Some(x)) if x == t || !T::UNIQUE), "C11", || format!("after the last sender is gone the stream must still yield buffered value {}, got {:?}", t, r));
+            }
+            for _ in 0..2 {
+                let r = sc.main.sstream_poll(2);
+                sc.expect(matches!(r, Poll::Ready(None)), "C16", || format!("stream must end after the last sender is gone, and keep reporting the end, got {:?}", r));
+            }
+        }
+    }
+    sc.main.sstream_drop();
+    cell(cx, format!("stream/{}/{}", ["waits-with-spurious-polls", "waker-change-while-claimed", "close-during-wait", "disconnect-after-buffered"][variant as usize], T::NAME));
+    sc.finish(cx.lin_budget, &mut cx.obs, &mut cx.samples, &mut cx.lin_states)
+}
+fn space_stream(cs: &mut Vec<Case>, class: &'static str) {
+    for cap in [Some(0), Some(1), Some(2), None] {
+        for a in 0..4 {
+            for b in 0..4 {
+                for c in 0..3 {
+                    for d in [0, 1, 4, 5] {
+                        cs.push(Case { fam: "stream", class, cap, a, b, c, d, seed: 0 });
+                    }
+                }
+            }
+        }
+    }
+}
+
 fn run_case<T: Payload>(c: &Case, cx: &mut Ctx) -> Outcome {
     match c.fam {
+        "stream" => fam_stream::<T>(c, cx),
         "tight" => fam_tight::<T>(c, cx),
         "handoff" => fam_handoff::<T>(c, cx),
         "timed" => fam_timed::<T>(c, cx),
@@ -1144,7 +1280,7 @@ fn run_case<T: Payload>(c: &Case, cx: &mut Ctx) -> Outcome {
     }
 }
 
-const FAMILIES: [&str; 10] = ["handoff", "timed", "progress", "futdrop", "wakerace", "frozen", "drain", "fifo", "closedisc", "tight"];
+const FAMILIES: [&str; 11] = ["handoff", "timed", "progress", "futdrop", "wakerace", "frozen", "drain", "fifo", "closedisc", "tight", "stream"];
 
 fn space(fam: &str, classes: &[&'static str]) -> Vec<Case> {
     let mut v = Vec::new();
@@ -1160,6 +1296,7 @@ fn space(fam: &str, classes: &[&'static str]) -> Vec<Case> {
             "fifo" => space_fifo(&mut v, class),
             "closedisc" => space_closedisc(&mut v, class),
             "tight" => space_tight(&mut v, class),
+            "stream" => space_stream(&mut v, class),
             _ => panic!("unknown family {}", fam),
         }
     }
@@ -1312,6 +1449,7 @@ fn main() -> std::process::ExitCode {
                         "fifo" => "C02",
                         "closedisc" => "C10",
                         "tight" => "C06",
+                        "stream" => "C16",
                         _ => "C03",
                     };
                     let v: Vec<(String, String)> = v.into_iter().map(|(p, m)| if p == "C03" { (primary.to_string(), format!("[scripted {} scenario] {}", fam, m)) } else { (p, m) }).collect();
